@@ -276,8 +276,25 @@ def run_one(item, pid, wdir, profiles):
             # a crash / hang of the crate through its safe API is itself a violation of C19 (and a finding for the others)
             last = [l for l in impl["lines"] if l.startswith("op ")]
             res["oracle"].append("ORACLE %s line=? the crate %s in the %s build after `%s`" % (pid, impl["status"], prof, last[-1] if last else "?"))
-        if impl["lines"] != model["lines"] and res["diff"] is None:
-            d = H.first_exact_diff(impl["lines"], model["lines"])
+        a_lines, m_lines = impl["lines"], model["lines"]
+        if lines[0].startswith("kcache"):
+            # Cache<OpKey, Ref> uses the crate's own key hash: which slot a key lands in (hence faults, dumps) is layout, not
+            # behaviour; compare the answers of the lookups only.  (The cache with harness-defined hashes is compared exactly.)
+            # The cache is lossy by design, so with another key hash a lookup may miss where the model hits (or the reverse):
+            # only two different VALUES for the same lookup are a disagreement (the oracle checks each value against the latest
+            # insertion under that key on its own).
+            strip = lambda ls: [" ".join(l.split()[:2]) if l.startswith("g ") else l for l in ls if not l.startswith("dump")]
+            a_lines, m_lines = strip(a_lines), strip(m_lines)
+            if len(a_lines) == len(m_lines):
+                a_lines = [m if (a != m and a.startswith("g ") and m.startswith("g ") and "none" in (a[2:], m[2:])) else a for a, m in zip(a_lines, m_lines)]
+        res["exact"] = res.get("exact", True) and (impl["lines"] == model["lines"])
+        if lines[0].startswith("raw"):
+            # RawTable: what the property fixes is the map behaviour and the reported length; capacity, the free counter and the
+            # status words are a growth / tombstone policy (exact agreement on them is reported in the evidence, not required)
+            obs = lambda ls: [(l.split(" | ")[0] + " len=" + l.split(" | ")[1].split()[0]) if " | " in l else l for l in ls]
+            a_lines, m_lines = obs(a_lines), obs(m_lines)
+        if a_lines != m_lines and res["diff"] is None:
+            d = H.first_exact_diff(a_lines, m_lines)
             res["diff"] = (prof,) + d
     res["nlines"] = len(model["lines"])
     res["agree"] = res["diff"] is None
@@ -385,7 +402,7 @@ def run_property(pid, tier, seed, spec):
                 "(configuration line, operation line) pairs; every line operates on the structure, so every one is counted as non-trivial",
         "samples": [{"history": n, "meta": {k: v for k, v in m.items() if k in ("seed", "cfg", "kind")}, "first_lines": ls[:30]} for (n, ls, m) in sample_items],
         "traces_validated_against_impl": sum(1 for r in results if r["agree"]),
-        "exact_agreement": sum(1 for r in results if r["agree"]),
+        "exact_agreement": sum(1 for r in results if r.get("exact", r["agree"])),
         "canonical_agreement": sum(1 for r in results if r["agree"]),
         "ops_by_kind": dict(ops),
         "classes": dict(classes),
